@@ -285,6 +285,8 @@ def run(ctx: Ctx):
     from ..translate import gen
     gen.regenerate(ctx, ["Constants"])
     leanproj.check_theorems(ctx, MODULE, THEOREMS)
+    from .registry import THEOREMS_C08B
+    leanproj.check_theorems(ctx, "PyseqmVerif.Properties.C10b", THEOREMS_C08B)
     drv = leanproj.Driver()
     try:
         try:
